@@ -132,9 +132,11 @@ def classify_missing(r, key, ent, all_req, query=None):
 
 
 def classify_extra(r, prog, key, ent, query=None):
+    f, ln, c, e = key
+    if any(o.role == "remote" and o.ent is not ent for o in r.occs if (o.file, o.line, o.col) == (f, ln, c)):
+        return "extra:remote-name-in-use-rename-clause-taken-for-a-local-homonym"
     if query is not None and hides_homonym(r, query, ent):
         return "extra:" + HIDDEN_LABEL
-    f, ln, c, e = key
     line = r.lines[f][ln] if ln < len(r.lines[f]) else ""
     w = in_string_or_comment(line, c)
     if w:
@@ -339,7 +341,101 @@ def dollar_program(k):
     return Program([f], ents, [m], [msc], {"same_line_dups": 1})
 
 
+def indirect_program(k):
+    """Hand-built programs in which an entity is used in a file that has no USE path to the module declaring it:
+    k=0: a component reached through an object whose type the file does not import (b: 'use a, only: t', 'type(t) :: obj';
+         program: 'use b, only: obj', 'obj%v'); k=1: a module variable used in a submodule that lives in its own file
+         (host association); k=2: both, with the program also renaming the object."""
+    from harness.fmodel import Ent, FileModel, Program, Ref, Scope, Stmt
+
+    ents, files, tops, mods = [], [], [], []
+
+    def ent(name, kind, scope, **kw):
+        e = Ent(len(ents), name, kind, scope, **kw)
+        ents.append(e)
+        return e
+
+    # file 0: module ia_mod with type ia_t (components v, w) and variable total
+    f0 = FileModel("f0.f90")
+    files.append(f0)
+    ma = ent("ia_mod", "module", None)
+    sa = Scope("module", ma)
+    ma.inner = sa
+    tops.append(sa)
+    mods.append(ma)
+    f0.units.append(ma)
+    t = ent("ia_t", "type", sa)
+    sa.declared["ia_t"] = t
+    tsc = Scope("type", t, sa)
+    t.inner = tsc
+    v = ent("v", "component", tsc, typ="integer")
+    w = ent("w", "component", tsc, typ="integer")
+    t.members += [v, w]
+    total = ent("total", "variable", sa, typ="integer")
+    sa.declared["total"] = total
+    f0.stmts += [Stmt(["module ", Ref(ma, "decl")], kind="open-unit", scope=sa, opens=ma), Stmt(["implicit none"], depth=1, scope=sa),
+                 Stmt(["type :: ", Ref(t, "decl")], kind="open-type", depth=1, scope=sa, opens=t),
+                 Stmt(["integer :: ", Ref(v, "decl")], kind="decl", depth=2, scope=sa), Stmt(["integer :: ", Ref(w, "decl")], kind="decl", depth=2, scope=sa),
+                 Stmt(["end type ", Ref(t, "endname")], kind="close-type", depth=1, scope=sa, closes=t),
+                 Stmt(["integer :: ", Ref(total, "decl")], kind="decl", depth=1, scope=sa)]
+    if k >= 1:
+        f0.stmts += [Stmt(["interface"], kind="open-interface", depth=1, scope=sa), Stmt(["module subroutine ia_add(n)"], depth=2, scope=sa),
+                     Stmt(["integer, intent(in) :: n"], depth=3, scope=sa), Stmt(["end subroutine ia_add"], depth=2, scope=sa),
+                     Stmt(["end interface"], kind="close-interface", depth=1, scope=sa)]
+    f0.stmts.append(Stmt(["end module ", Ref(ma, "endname")], kind="close-unit", scope=sa, closes=ma))
+    # file 1: module ib_mod: use ia_mod, only: ia_t ; type(ia_t), public :: obj
+    f1 = FileModel("f1.f90")
+    files.append(f1)
+    mb = ent("ib_mod", "module", None)
+    sb = Scope("module", mb)
+    mb.inner = sb
+    tops.append(sb)
+    mods.append(mb)
+    f1.units.append(mb)
+    obj = ent("obj", "variable", sb, typ=("type", t))
+    sb.declared["obj"] = obj
+    f1.stmts += [Stmt(["module ", Ref(mb, "decl")], kind="open-unit", scope=sb, opens=mb),
+                 Stmt(["use ", Ref(ma, "usemod"), ", only: ", Ref(t, "only")], kind="use", depth=1, scope=sb), Stmt(["implicit none"], depth=1, scope=sb),
+                 Stmt(["type(", Ref(t, "typeref"), "), public :: ", Ref(obj, "decl")], kind="decl", depth=1, scope=sb),
+                 Stmt(["end module ", Ref(mb, "endname")], kind="close-unit", scope=sb, closes=mb)]
+    # file 2: program: use ib_mod, only: obj [=> alias]; obj%v = obj%v + obj%w
+    f2 = FileModel("f2.f90")
+    files.append(f2)
+    pp = ent("ic_main", "program", None)
+    sp = Scope("program", pp)
+    pp.inner = sp
+    tops.append(sp)
+    f2.units.append(pp)
+    loc = "o_alias" if k == 2 else "obj"
+    use_toks = ["use ", Ref(mb, "usemod"), ", only: "] + ([Ref(obj, "alias", loc), " => ", Ref(obj, "remote")] if k == 2 else [Ref(obj, "only")])
+    f2.stmts += [Stmt(["program ", Ref(pp, "decl")], kind="open-unit", scope=sp, opens=pp), Stmt(use_toks, kind="use", depth=1, scope=sp),
+                 Stmt(["implicit none"], depth=1, scope=sp),
+                 Stmt([Ref(obj, "use", loc), "%", Ref(v, "member"), " = ", Ref(obj, "use", loc), "%", Ref(v, "member"), " + ", Ref(obj, "use", loc), "%", Ref(w, "member")],
+                      depth=1, scope=sp, simple=True),
+                 Stmt(["print *, ", Ref(obj, "use", loc), "%", Ref(w, "member"), ", 'v w total'  ! v w total"], depth=1, scope=sp, simple=True),
+                 Stmt(["end program ", Ref(pp, "endname")], kind="close-unit", scope=sp, closes=pp)]
+    if k >= 1:
+        # file 3: submodule (ia_mod) ia_sub with the separate module procedure using `total` by host association
+        f3 = FileModel("f3.f90")
+        files.append(f3)
+        ssub = Scope("submodule", None, sa)
+        f3.stmts += [Stmt(["submodule (", Ref(ma, "usemod"), ") ia_sub"], kind="open-unit", scope=ssub), Stmt(["implicit none"], depth=1, scope=ssub),
+                     Stmt(["contains"], kind="contains", scope=ssub), Stmt(["module subroutine ia_add(n)"], depth=1, scope=ssub),
+                     Stmt(["integer, intent(in) :: n"], depth=2, scope=ssub),
+                     Stmt([Ref(total, "use"), " = ", Ref(total, "use"), " + n"], depth=2, scope=ssub, simple=True),
+                     Stmt(["end subroutine ia_add"], depth=1, scope=ssub), Stmt(["end submodule ia_sub"], kind="close-unit", scope=ssub)]
+    return Program(files, ents, mods, tops, {"same_line_dups": 1})
+
+
 def run(ctx):
+    for k in range(3):
+        if k % ctx.nshards == (ctx.shard + 3) % 3 and 3 <= ctx.shard < 6:
+            prog = indirect_program(k)
+            discs, r = check_program(ctx, prog, fmodel.PLAIN, [0, 1, 2], ctx.scratch, validate=True)
+            for d in discs:
+                d.what = "(indirect access) " + d.what
+            ctx.event("indirect-access-programs")
+            ctx.check(discs, {"files": r.files})
     for k in range(3):
         if k % ctx.nshards == ctx.shard % 3 and ctx.shard < 3:
             prog = dollar_program(k)
